@@ -174,6 +174,19 @@ pub fn run(ctx: &Ctx, rep: &mut Report) {
         let surj = (1..=7462).all(|v| observed[v].load(Relaxed) > 0) && distinct_obs == 7462;
         rep.guard("observed values are exactly 1..=7462", surj, format!("{} distinct values observed", distinct_obs));
     }
+    {
+        // representative cases through the canonical judge, in all ordered pairs (also audits the judge itself)
+        let mut items = Vec::new();
+        for k in 0..10usize {
+            let w: Vec<u32> = (0..5).map(|i| d[(k * 5 + i * (k % 4 + 1)) % 52].word()).collect();
+            if distinct_cards(&w).is_some() {
+                for e in ENTRIES {
+                    items.push(Case::w32(e, &w));
+                }
+            }
+        }
+        super::history2(rep, judge, &items);
+    }
     // call sequences: a hidden memo / cache would answer every single input correctly and fail after a predecessor
     super::history::space(rep, 5, false, ctx.tier.thorough());
     rep.rule = "every five-card subset of the deck (oracle deck order) in every one of the 120 slot orders, through every five-card entry point; distinct = distinct ordered arrays, all of which are in the property's domain (each reaches a table cell through its own pre-image)".into();
